@@ -221,6 +221,7 @@ class History:
             self.disk = FileDisk(self.scratch, desc["file_stores"])
         else:
             self.disk = Disk()
+        self.disk.tickv = float(desc.get("tick", 1.0))
         self.records = []
         self.src_version = {}
         self.fresh = None  # instant
@@ -246,7 +247,7 @@ class History:
 
     def update_source(self, name):
         v = self.src_version[name] = self.src_version.get(name, 0) + 1
-        self.disk.now += 1.0
+        self.disk.now += self.disk.tickv
         self.disk.put(name, Val("src:" + name, str(v)), self.epoch + self.disk.now)
 
     def source_values(self):
@@ -431,7 +432,7 @@ def apply_op(hist, op, idx, **kw):
     if k == "update":
         hist.update_source(op["store"])
     elif k == "delete":
-        hist.disk.delete(op["store"])
+        _delete_store(hist, op["store"])
     elif k == "advance":
         hist.disk.now += op["seconds"]
     elif k == "bump":
@@ -441,7 +442,7 @@ def apply_op(hist, op, idx, **kw):
         hist.world["_versions"][nid] = hist.world["_versions"].get(nid, 0) + 1
         st = [n.get("store") for n in hist.world["nodes"] if n["id"] == nid][0]
         if st:
-            hist.disk.delete(st)
+            _delete_store(hist, st)
     elif k == "retime":
         # modified times moved to given instants (as os.utime / touch would do), contents unchanged
         for name, off in op["offsets"].items():
@@ -450,17 +451,25 @@ def apply_op(hist, op, idx, **kw):
                 hist.disk.data[name] = (v, hist.epoch + off)
         if hist.disk.data:
             hist.disk.last = max(hist.disk.last, max(t for _, t in hist.disk.data.values()))
-        hist.disk.now = max(hist.disk.now, hist.disk.last - hist.epoch + 1.0)
+        hist.disk.now = max(hist.disk.now, hist.disk.last - hist.epoch + hist.disk.tickv)
     elif k == "fresh":
         # fresh_time := an instant later than every existing modified time and
         # earlier than every later write (pairwise distinct instants)
-        hist.disk.now += 1.0
-        hist.fresh = max(hist.epoch + hist.disk.now, hist.disk.last) + 0.5
-        hist.disk.last = hist.fresh + 0.25
+        tk = hist.disk.tickv
+        hist.disk.now += tk
+        hist.fresh = max(hist.epoch + hist.disk.now, hist.disk.last) + 0.5 * tk
+        hist.disk.last = hist.fresh + 0.25 * tk
     else:
         raise ValueError(k)
     hist.h.update(repr(("op", k, sorted(hist.disk.mtimes().items()))).encode())
     return None
+
+
+def _delete_store(hist, name):
+    hist.disk.delete(name)
+    sd = hist.world["stores"].get(name, {})
+    if sd.get("feeds") and sd.get("alias"):
+        hist.disk.delete(sd["feeds"])   # one store seen through two registry entries: its content goes as a whole
 
 
 def execute(desc, *, stop_on=None):
